@@ -24,7 +24,7 @@ from gens.jose import ALL_JWS
 from ref import jws as rjws, jwe as rjwe, b64 as rb, keys as rk, selftest
 
 LEVEL = "exploration"
-RULE = ("(a) operations from a pool of 62 (sign/verify HS256 with two different keys, ES256, EdDSA, RS256 compact and JSON, key-set signing "
+RULE = ("(a) operations from a pool of 65 (sign/verify HS256 with two different keys, ES256, EdDSA, RS256 compact and JSON, key-set signing "
         "with random pick, A128KW / ECDH-ES / dir encrypt and decrypt, jwt encode/decode, thumbprint, ensure_kid, KeySet([...]), "
         "KeySet.as_dict, public export, PEM export, per-call allow-lists, caller registries, PBES2 with the right / a wrong password, CBC-HS / ChaCha20 / GCMKW / ECDH-1PU messages, compressed (DEF) messages with two different plaintexts, keys carrying use / key_ops) run pairwise in two threads over shared Key / KeySet / registry objects rebuilt from "
         "stored material for every schedule (lazy initialisation is raced every time); the tracer switches threads only at the "
@@ -115,7 +115,7 @@ class Graph:
     """Shared objects, rebuilt from stored material (so lazily initialised state is fresh). Only the objects the operations need are
     built (an RSA PEM import costs 50 ms of key checking)."""
 
-    ALL = ("oct1", "oct2", "oct16", "ec", "ec2", "ed", "rsa", "ecpub", "ks", "reg_jws", "reg_jwe", "ec_sig")
+    ALL = ("oct1", "oct2", "oct16", "ec", "ec2", "ed", "rsa", "ecpub", "ks", "reg_jws", "reg_jwe", "ec_sig", "pp_a", "pp_b")
 
     def __init__(self, needs=None):
         from joserfc.jwk import OctKey, ECKey, OKPKey, RSAKey, KeySet
@@ -138,6 +138,12 @@ class Graph:
             self.ec_sig = ECKey.import_key(m["pem"]["ec"], {"use": "sig", "key_ops": ["sign", "verify"], "kid": "sig-key-1"})
         if "ed" in needs:
             self.ed = OKPKey.import_key(m["pem"]["ed"])
+        # two keys made with ONE parameters dict object (an application constant): what happens to one key is not the other's business
+        pp = {"use": "sig"}
+        if "pp_a" in needs:
+            self.pp_a = ECKey.import_key(m["pem"]["ec2"], pp)
+        if "pp_b" in needs:
+            self.pp_b = OKPKey.import_key(m["pem"]["ed"], pp)
         if "rsa" in needs:
             self.rsa = RSAKey.import_key(m["pem"]["rsa"])
         if "ecpub" in needs:
@@ -555,7 +561,25 @@ def op_decrypt_kw_zip_b(G):
     return jwe.decrypt_compact(material()["tok"]["kw_zip_b"], G.oct16).plaintext.decode()
 
 
+def op_pp_kid_a(G):
+    G.pp_a.ensure_kid()
+    return [G.pp_a.kid, G.pp_a.kid == material()["tp"]["ec2"], G.pp_a.as_dict(private=False).get("kid")]
+
+
+def op_pp_kid_b(G):
+    G.pp_b.ensure_kid()
+    return [G.pp_b.kid, G.pp_b.kid == material()["tp"]["ed"], G.pp_b.as_dict(private=False).get("kid")]
+
+
+def op_pp_sign_b(G):
+    from joserfc import jws
+    from joserfc.jwk import KeySet
+    t = jws.serialize_compact({"alg": "EdDSA"}, b"payload-ed", KeySet([G.pp_b]), algorithms=["EdDSA"])
+    return [_ref_verify(t, "ed", b"payload-ed"), json.loads(rb.decode(t.split(".")[0])).get("kid") == material()["tp"]["ed"]]
+
+
 OPS = {f.__name__[3:]: f for f in [
+    op_pp_kid_a, op_pp_kid_b, op_pp_sign_b,
     op_encrypt_kw_zip, op_decrypt_kw_zip, op_decrypt_kw_zip_b,
     op_encrypt_kw_foreign_header, op_decrypt_pbes2_default_registry, op_sigkey_first_use_sign, op_sigkey_encrypt_refused, op_sigkey_keyset, op_sigkey_export,
     op_read_kid, op_custom_registry_sign, op_sign_unregistered_header, op_custom_jwe_registry, op_encrypt_unregistered_header,
@@ -585,6 +609,7 @@ TOUCH = {"sigkey_first_use_sign": {"ec_sig"}, "sigkey_encrypt_refused": {"ec_sig
          "encrypt_gcmkw": {"A128GCMKW", "A128GCM"}, "decrypt_gcmkw": {"A128GCMKW", "A128GCM"},
          "encrypt_1pu_kw": {"ECDH-1PU+A128KW", "A128CBC-HS256"}, "decrypt_1pu_kw": {"ECDH-1PU+A128KW", "A128CBC-HS256"},
          "decrypt_1pu_kw_b": {"ECDH-1PU+A128KW", "A128CBC-HS256"},
+         "pp_kid_a": {"pp"}, "pp_kid_b": {"pp"}, "pp_sign_b": {"pp"},
          "encrypt_kw_zip": {"DEF"}, "decrypt_kw_zip": {"DEF"}, "decrypt_kw_zip_b": {"DEF"}}
 CORE = ["sign_hs_k1", "sign_hs_k2", "verify_hs_k1", "verify_hs_wrongkey", "sign_es", "verify_es_private_obj", "keyset_new", "keyset_sign_pick",
         "keyset_verify_kid", "thumbprint", "ensure_kid", "export_public", "encrypt_kw", "decrypt_kw", "encrypt_ecdh", "jwt_roundtrip", "shared_keyset_sign",
@@ -593,7 +618,7 @@ CORE = ["sign_hs_k1", "sign_hs_k2", "verify_hs_k1", "verify_hs_wrongkey", "sign_
         "verify_hs256_list", "verify_hs512_under_hs256_list", "verify_hs512_list", "decrypt_pbes2_right", "decrypt_pbes2_wrong",
         "verify_hs_registry_and_list", "verify_es_registry", "encrypt_kw_cbc", "decrypt_kw_cbc", "decrypt_kw_b", "decrypt_kw_cbc_b",
         "decrypt_kw_c20p", "decrypt_kw_c20p_b", "encrypt_gcmkw", "encrypt_1pu_kw", "decrypt_1pu_kw", "decrypt_1pu_kw_b",
-        "encrypt_kw_zip", "decrypt_kw_zip", "decrypt_kw_zip_b"]
+        "encrypt_kw_zip", "decrypt_kw_zip", "decrypt_kw_zip_b", "pp_kid_a", "pp_kid_b", "pp_sign_b"]
 
 
 def outcome(fn, G):
